@@ -49,6 +49,9 @@ type FuncContract struct {
 	Transfers []Transfer
 	Fresh     []string // results that are freshly allocated (or nil)
 	Asserts   map[string][]Clause // call-site assertions keyed by "call.name#k"
+	Captures  []Clause // closure: facts about captured values, checked at creation, assumed at entry
+	Iterates  string   // parameter name of a callback invoked an arbitrary number of times
+	IterAssume []Clause // facts about the values the callback is invoked with (arg0, arg1, ...)
 	NoLockset string   // reason for exempting this function from lockset obligations
 	Assumed   bool // comes from /verif/spec (dependency ledger)
 	Inline    bool // force inlining even though clauses exist (unused)
@@ -400,6 +403,20 @@ func (sp *Specs) loadContractFile(path, pkg string, assumed bool) error {
 			} else {
 				ls.Decreases = append(ls.Decreases, c)
 			}
+		case "captures":
+			c, err := mkClause(wtag, rest, l.line)
+			if err != nil {
+				return err
+			}
+			curFn.Captures = append(curFn.Captures, c)
+		case "iterates":
+			curFn.Iterates = strings.TrimSpace(rest)
+		case "iterassume":
+			c, err := mkClause(wtag, rest, l.line)
+			if err != nil {
+				return err
+			}
+			curFn.IterAssume = append(curFn.IterAssume, c)
 		case "nolockset":
 			curFn.NoLockset = rest
 			if rest == "" {
